@@ -317,7 +317,7 @@ func (b *badgerDB) applyRemove(r res.Resource, idx int) (interface{}, error) {
 	}
 
 	err := b.DB.Update(func(txn *badger.Txn) error {
-		var c []interface{}
+		var c []json.RawMessage
 		var dta []byte
 		rname := []byte(r.ResourceName())
 
